@@ -1003,11 +1003,8 @@ class CallsMixin:
         if name in ("lower", "upper", "strip") and not args:
             f = {"lower": s_lower, "upper": s_upper, "strip": s_strip}[name]
             emp = z3.StringVal("")
-            # the only interpreted facts: the empty string maps to itself and nothing else does
-            # (case mapping preserves length; strip of a non-blank... is NOT assumed)
+            # the only interpreted fact: the empty string maps to itself
             ctx.assume(f(emp) == emp)
-            if name != "strip":
-                ctx.assume(z3.Length(f(e)) == z3.Length(e))
             return SymStr(f(e), kind)
         if name == "startswith":
             return mk_bool(z3.PrefixOf(str_to_z3(args[0]), e))
